@@ -29,6 +29,12 @@ func verifEdgeCreated(se edge.StatsEdge, task, parent, child string) {
 	}
 }
 
+// verifEdgeClosed forgets a closed edge: a harness that starts hundreds of thousands of tasks in one
+// process would otherwise keep every edge (and its channel buffer) alive through this registry.
+func verifEdgeClosed(e *Edge) {
+	verifEdgeNames.Delete(e)
+}
+
 // Emit wraps the embedded StatsEdge.Emit: point "edge.emit" (task, parent,
 // child) is reported from the receiving node's goroutine for every message it
 // takes off the edge.  Only present in verif builds.
